@@ -38,6 +38,7 @@ def shards(tier, seed):
         parts = 2 if q else 4
         for i in range(parts):
             out.append(("prod_%s_%d" % (c.name, i), dict(kind="prod", cname=c.name, part=i, parts=parts, reps=1 if q else 4)))
+    out.append(("near_recursion_limit", dict(kind="near_limit")))
     return out
 
 
@@ -160,6 +161,8 @@ def check_bad_secexp(ctx, curve, n):
 
 def run(ctx, name, kind, **kw):
     rng = ctx.rng
+    if kind == "near_limit":
+        return sigs.near_limit(ctx, rng, ["NIST521p", "BRAINPOOLP512r1", "NIST192p"], ['sign'])
     if kind == "toy":
         from vf import toy
         t = toy.toy(*kw["key"])
